@@ -170,6 +170,27 @@ func VerifySweep(seed int64) (res Result) {
 	if ok, _ := pk.Verify(valid, m.Data, crypto.NewExpandMsgXOFKMAC128(m.Tag+"x")); ok {
 		add("accepted under another domain tag")
 	}
+	// another tag of the same length that differs only in its last byte, for short and long tags
+	for _, n := range []int{1, 50, 121, 140, 168, 200, 300, 500} {
+		t1 := make([]byte, n)
+		for i := range t1 {
+			t1[i] = byte('a' + (i*7+int(seed))%26)
+		}
+		t2 := append([]byte(nil), t1...)
+		t2[n-1] ^= 1
+		s1, err := sk.Sign(m.Data, crypto.NewExpandMsgXOFKMAC128(string(t1)))
+		res.Evals++
+		if err != nil {
+			add("Sign under a long tag failed: " + err.Error())
+			continue
+		}
+		if ok, _ := pk.Verify(s1, m.Data, crypto.NewExpandMsgXOFKMAC128(string(t2))); ok {
+			add(fmt.Sprintf("a signature under a %d-byte tag verifies under another tag of the same length differing in the last byte", n))
+		}
+		if ok, _ := pk.Verify(s1, m.Data, crypto.NewExpandMsgXOFKMAC128(string(t1))); !ok {
+			add(fmt.Sprintf("a signature under a %d-byte tag does not verify under its own tag", n))
+		}
+	}
 	if ok, _ := pk.Verify(valid, append(append([]byte{}, m.Data...), 0), h); ok {
 		add("accepted for another message")
 	}
